@@ -405,7 +405,7 @@ def _reduce(c, op):
             import jax.numpy as jnp
             vv = [v.copy() for v in c.va]
             for v in vv:
-                if v.size > 1:
+                if v.size > 2:          # keep >= 2 non-zero entries in every non-scalar leaf: counts must ADD UP
                     v.reshape(-1)[0] = 0
             fz = R.flat(vv)
             ta = R.build(c.spec, vv, jnp.asarray)
